@@ -6,7 +6,7 @@ TRUSTED = [
     "Lean 4.33 kernel; axioms per theorem listed under coverage.axioms (subset of propext, Classical.choice, Quot.sound)",
     "translate/udq.py (UDQTokenType enum, token-class sets, func_type table, function registrations, UDQVarType, is_no_mix, targetType first-character table -> Gen/UdqEnums.lean), cross-checked by the AST/eval/var_type correspondence",
     "harness/udq.cpp (reads UDQASTNode/UDQDefine private members through their public serializeOp) + lib/vlib.py differ; model driver (compiled Lean, libm pow/exp/log shared with the C++)",
-    "outside the model: strtod beyond decimal literals (hex, inf, nan), WellMatcher wildcard matching (answers passed to the model), segment/region quantities, table evaluation, RAND*, std::sort tie order (insertion sort assumed for <= 16 elements)",
+    "outside the model: strtod beyond decimal literals (hex, inf, nan), fnmatch bracket expressions and inner backslash escapes (the matcher itself — * ? literal, well lists, leading backslash — is modelled and tied by udq.match / udq.wells), segment/region quantities, table evaluation, RAND*; std::sort tie order: stable insertion for <= 16 defined elements (exact correspondence), any admissible permutation above (real answers checked against the model's specification isSortRank)",
 ]
 
 
